@@ -48,13 +48,20 @@ func (w *World) funcConst(fn *ssa.Function) string {
 	return "fn_" + sanitize(fn.String())
 }
 
+var thePkgPath string
+
 func fnName(fn *ssa.Function) string {
 	s := fn.String()
-	// strip package path: (*github.com/x/y.T).m -> (*T).m ; github.com/x/y.f -> f
-	if fn.Pkg != nil {
-		s = strings.ReplaceAll(s, fn.Pkg.Pkg.Path()+".", "")
-	} else if fn.Parent() != nil && fn.Parent().Pkg != nil {
-		s = strings.ReplaceAll(s, fn.Parent().Pkg.Pkg.Path()+".", "")
+	// own package: (*github.com/x/y.T).m -> (*T).m ; other packages: (*sync.Pool).Get, (json.Number).Float64
+	if thePkgPath != "" {
+		s = strings.ReplaceAll(s, thePkgPath+".", "")
+	}
+	pkg := fn.Pkg
+	if pkg == nil && fn.Parent() != nil {
+		pkg = fn.Parent().Pkg
+	}
+	if pkg != nil && pkg.Pkg.Path() != thePkgPath && pkg.Pkg.Path() != pkg.Pkg.Name() {
+		s = strings.ReplaceAll(s, pkg.Pkg.Path()+".", pkg.Pkg.Name()+".")
 	}
 	return s
 }
@@ -265,13 +272,42 @@ func (ex *Exec) execBlock(fr *Frame, b *ssa.BasicBlock, st *State, pred *ssa.Bas
 			return
 		}
 		ex.loopClauses(fr, li, st, "inv-init", false)
-		// havoc loop-modified state
+		// havoc loop-modified state (heaps first: the loop-carried values are bounded by the new allocation counter)
+		ex.havocLoop(st, li.writes)
+		var lenTerm string
+		if len(b.Instrs) > 0 {
+			if iff, ok := b.Instrs[len(b.Instrs)-1].(*ssa.If); ok {
+				if cmp, ok := iff.Cond.(*ssa.BinOp); ok && cmp.Op == token.LSS {
+					if sv, ok := st.vals[cmp.Y]; ok && sv.Loc == nil && sv.Tup == nil {
+						lenTerm = sv.T
+					}
+				}
+			}
+		}
 		for _, p := range phis {
 			c := ex.fresh(fnShort(fr.fn)+"_"+p.Comment, ex.w.sortOf(p.Type()))
 			st.vals[p] = SVal{T: c}
 			ex.assumeWF(st, p.Type(), c)
+			if p.Comment == "rangeindex" {
+				// built-in invariant of range loops: the hidden counter starts at -1, only increments,
+				// and stays below the length evaluated before the loop
+				st.assume(le("(- 1)", c))
+				if lenTerm != "" {
+					st.assume(lt(c, lenTerm))
+				}
+			}
 		}
-		ex.havocWrites(st, li.writes, nil, nil)
+		for blk := range li.body {
+			for _, in := range blk.Instrs {
+				if nx, ok := in.(*ssa.Next); ok {
+					if rng, ok := nx.Iter.(*ssa.Range); ok {
+						c := ex.fresh("rangepos", "Int")
+						st.assume(le("0", c))
+						st.vals[rangePos{rng}] = SVal{T: c}
+					}
+				}
+			}
+		}
 		st.inLoop[b] = true
 		ex.assumeLoopInvariants(fr, li, st)
 	}
@@ -286,6 +322,17 @@ func fnShort(fn *ssa.Function) string {
 // havocWrites replaces every heap in ws by a fresh version, framed by ownership:
 // locations owned by the caller (G_mine) or read-only (RO) and not listed keep their value.
 func (ex *Exec) havocWrites(st *State, ws map[string]bool, listed []string, released []string) {
+	ex.havocWritesMode(st, ws, listed, released, false)
+}
+
+// havocLoop: the state after an arbitrary number of iterations.  The loop body itself may write
+// any location it owns, so only read-only locations (and, for heaps that never hold pool objects,
+// locations the function does not own) keep their value; everything else must be in the invariant.
+func (ex *Exec) havocLoop(st *State, ws map[string]bool) {
+	ex.havocWritesMode(st, ws, nil, nil, true)
+}
+
+func (ex *Exec) havocWritesMode(st *State, ws map[string]bool, listed []string, released []string, loop bool) {
 	if len(ws) == 0 {
 		return
 	}
@@ -307,11 +354,13 @@ func (ex *Exec) havocWrites(st *State, ws map[string]bool, listed []string, rele
 		}
 		return and(cs...)
 	}
+	if ws["alloc"] {
+		na := ex.fresh("alloc", "Int")
+		st.assume(le(allocBefore, na))
+		st.alloc = na
+	}
 	for _, h := range names {
 		if h == "alloc" {
-			na := ex.fresh("alloc", "Int")
-			st.assume(le(allocBefore, na))
-			st.alloc = na
 			continue
 		}
 		old := ex.heapTerm(st, h)
@@ -319,21 +368,51 @@ func (ex *Exec) havocWrites(st *State, ws map[string]bool, listed []string, rele
 		x := "x!f"
 		switch h {
 		case mineH:
-			// permissions are kept (except released ones)
-			st.assume(fmt.Sprintf("(forall ((%s Int)) (! (=> (and (select %s %s) %s) (select %s %s)) :pattern ((select %s %s))))",
-				x, old, x, releasedGuard(x, released), nw, x, nw, x))
+			if loop {
+				st.assume(fmt.Sprintf("(forall ((%s Int)) (! (=> (select %s %s) (and (< 0 %s) (not (RO %s)))) :pattern ((select %s %s))))", x, nw, x, x, x, nw, x))
+				continue
+			}
+			// permissions are kept (except released ones); owned locations are never read-only
+			st.assume(fmt.Sprintf("(forall ((%s Int)) (! (and (=> (and (select %s %s) %s) (select %s %s)) (=> (select %s %s) (and (< 0 %s) (not (RO %s))))) :pattern ((select %s %s))))",
+				x, old, x, releasedGuard(x, released), nw, x, nw, x, x, x, nw, x))
+		case "G_esc":
+			if loop {
+				continue
+			}
+			guard := and(sel(mineBefore, x), notListed(x, nil))
+			st.assume(fmt.Sprintf("(forall ((%s Int)) (! (=> %s (= (select %s %s) (select %s %s))) :pattern ((select %s %s))))",
+				x, guard, nw, x, old, x, nw, x))
 		default:
-			guard := and(or(sel(mineBefore, x), "(RO "+x+")"), notListed(x, nil))
+			guard := or(and(sel(mineBefore, x), notListed(x, nil)), "(RO "+x+")")
+			if !poolCapable(h) {
+				// only pool objects can change hands without being lent: every other pre-existing,
+				// unlisted location is out of the callee's reach (writes need ownership)
+				guard = and(lt(x, allocBefore), notListed(x, nil))
+			}
+			if loop {
+				guard = "(RO " + x + ")"
+				if !poolCapable(h) {
+					guard = or("(RO "+x+")", and(lt(x, allocBefore), not(sel(mineBefore, x))))
+				}
+			}
 			st.assume(fmt.Sprintf("(forall ((%s Int)) (! (=> %s (= (select %s %s) (select %s %s))) :pattern ((select %s %s))))",
 				x, guard, nw, x, old, x, nw, x))
 		}
 	}
 }
 
+func poolCapable(h string) bool {
+	switch h {
+	case "F_bufferContainer_result", "C_Slice", "A_Val", "A_Str":
+		return true
+	}
+	return strings.HasPrefix(h, "G_")
+}
+
 func releasedGuard(x string, released []string) string {
 	var cs []string
 	for _, l := range released {
-		cs = append(cs, not(eq(x, l)))
+		cs = append(cs, or(not(eq(x, l)), eq(l, "0")))
 	}
 	return and(cs...)
 }
@@ -350,14 +429,15 @@ func (ex *Exec) loopEnv(fr *Frame, li *loopInfo, st *State) map[string]CV {
 	for _, b := range fr.fn.Blocks {
 		for _, in := range b.Instrs {
 			if d, ok := in.(*ssa.DebugRef); ok && !d.IsAddr {
-				if id, ok := d.Expr.(interface{ String() string }); ok {
-					_ = id
-				}
 				obj := d.Object()
 				if obj == nil {
 					continue
 				}
 				if _, isVar := obj.(*types.Var); !isVar {
+					continue
+				}
+				// only references that are in scope at the loop: their block dominates the header
+				if li != nil && !(b == li.header || b.Dominates(li.header)) {
 					continue
 				}
 				n := obj.Name()
@@ -391,6 +471,51 @@ func (ex *Exec) loopEnv(fr *Frame, li *loopInfo, st *State) map[string]CV {
 			sv := ex.val(fr, st, avail[0])
 			if sv.Loc == nil && sv.Tup == nil {
 				env[n] = CV{T: sv.T, Sort: ex.w.sortOf(avail[0].Type()), Type: avail[0].Type()}
+			}
+		}
+	}
+	for _, b := range fr.fn.Blocks {
+		for _, in := range b.Instrs {
+			if rng, ok := in.(*ssa.Range); ok {
+				if pv, ok := st.vals[rangePos{rng}]; ok {
+					env["rangepos"] = CV{T: pv.T, Sort: "Int", Type: types.Typ[types.Int]}
+					it := st.vals[rng]
+					if len(it.Tup) == 3 {
+						env["rangeiter"] = CV{T: it.Tup[0].T, Sort: "Int", Type: types.Typ[types.Int]}
+						env["rangelen"] = CV{T: it.Tup[2].T, Sort: "Int", Type: types.Typ[types.Int]}
+					}
+				}
+			}
+		}
+	}
+	for h, l2 := range fr.loops {
+		for _, in := range h.Instrs {
+			p, ok := in.(*ssa.Phi)
+			if !ok {
+				break
+			}
+			if p.Comment == "rangeindex" {
+				if sv, ok := st.vals[p]; ok {
+					env[fmt.Sprintf("rangeindex%d", l2.ord)] = CV{T: sv.T, Sort: "Int", Type: types.Typ[types.Int]}
+				}
+			}
+		}
+		// the collection a rangeindex loop iterates over: operand of the len() feeding the loop test
+		if len(h.Instrs) > 0 {
+			if iff, ok := h.Instrs[len(h.Instrs)-1].(*ssa.If); ok {
+				if cmp, ok := iff.Cond.(*ssa.BinOp); ok {
+					if call, ok := cmp.Y.(*ssa.Call); ok {
+						if b, ok := call.Call.Value.(*ssa.Builtin); ok && b.Name() == "len" && len(call.Call.Args) == 1 {
+							x := call.Call.Args[0]
+							if sv, ok := st.vals[x]; ok && sv.Loc == nil && sv.Tup == nil {
+								env[fmt.Sprintf("rangeslice%d", l2.ord)] = CV{T: sv.T, Sort: ex.w.sortOf(x.Type()), Type: x.Type()}
+							} else if _, isParam := x.(*ssa.Parameter); isParam {
+								sv := ex.val(fr, st, x)
+								env[fmt.Sprintf("rangeslice%d", l2.ord)] = CV{T: sv.T, Sort: ex.w.sortOf(x.Type()), Type: x.Type()}
+							}
+						}
+					}
+				}
 			}
 		}
 	}
@@ -518,6 +643,7 @@ func (ex *Exec) execInstrs(fr *Frame, b *ssa.BasicBlock, i int, st *State) {
 			ex.doMakeSlice(fr, st, x)
 		case *ssa.MakeMap:
 			r := ex.newRef(st, "map")
+			st.assume(eq("(rtype "+r+")", fmt.Sprint(ex.w.typeID("map"))))
 			lenH := ex.w.heap("M_len", "(Array Int Int)")
 			st.assume(eq(sel(ex.heapTerm(st, lenH), r), "0"))
 			domH := ex.w.heap("M_dom", "(Array Int (Array Str Bool))")
@@ -607,6 +733,11 @@ func (ex *Exec) execInstrs(fr *Frame, b *ssa.BasicBlock, i int, st *State) {
 func (ex *Exec) doAlloc(fr *Frame, st *State, x *ssa.Alloc) {
 	et := derefType(x.Type())
 	r := ex.newRef(st, fnShort(fr.fn)+"_"+x.Comment)
+	if a, ok := et.Underlying().(*types.Array); ok {
+		st.assume(eq("(rtype "+r+")", fmt.Sprint(ex.w.typeID("[]"+ex.w.sortOf(a.Elem())))))
+	} else {
+		st.assume(eq("(rtype "+r+")", fmt.Sprint(ex.w.typeID(refTypeKey(x.Type())))))
+	}
 	switch {
 	case isStructType(et) && !isEmptyStruct(et):
 		ex.storeStruct(st, et, r, ex.w.zeroOf(et))
@@ -635,8 +766,11 @@ func (ex *Exec) pointerLoc(sv SVal, ptrT types.Type) *Loc {
 	return &Loc{Heap: ex.w.cellHeap(et), Ref: sv.T, Elem: et}
 }
 
-func (ex *Exec) isPoolHeap(h string) bool {
-	return h == "F_bufferContainer_result" || strings.HasPrefix(h, "C_Slice")
+func (ex *Exec) isPoolLoc(l *Loc) bool {
+	if strings.HasSuffix(l.Heap, "bufferContainer_result") {
+		return true
+	}
+	return l.Idx == "" && l.Elem != nil && typeKey(l.Elem) == "sort.StringSlice"
 }
 
 func (ex *Exec) doUnOp(fr *Frame, st *State, x *ssa.UnOp) {
@@ -657,14 +791,14 @@ func (ex *Exec) doUnOp(fr *Frame, st *State, x *ssa.UnOp) {
 		if sv.Loc == nil {
 			ex.check(fr, st, "nil", "", x.Pos(), not(eq(sv.T, "0")))
 		}
-		if ex.isPoolHeap(loc.Heap) {
+		if ex.isPoolLoc(loc) {
 			ex.check(fr, st, "use-after-put", "", x.Pos(), sel(ex.heapTerm(st, ex.w.ghostHeap("G_held")), loc.Ref))
 		}
 		t := ex.loadLoc(st, loc)
 		// name the loaded value
 		c := ex.fresh(fnShort(fr.fn)+"_"+x.Name(), ex.w.sortOf(et))
 		st.assume(eq(c, t))
-		ex.assumeWF(st, et, c)
+		ex.assumeWFBelow(st, et, c, ex.heapBound(st, loc.Heap))
 		st.vals[x] = SVal{T: c}
 	case token.NOT:
 		st.vals[x] = SVal{T: not(sv.T)}
@@ -827,7 +961,7 @@ func (ex *Exec) doStore(fr *Frame, st *State, x *ssa.Store) {
 		ex.check(fr, st, "nil", "", x.Pos(), not(eq(addr.T, "0")))
 	}
 	ex.check(fr, st, "frame-store", "", x.Pos(), sel(mine, ex.ownerRef(loc.Ref)))
-	if ex.isPoolHeap(loc.Heap) {
+	if ex.isPoolLoc(loc) {
 		ex.check(fr, st, "use-after-put", "", x.Pos(), sel(ex.heapTerm(st, ex.w.ghostHeap("G_held")), loc.Ref))
 	}
 	ex.storeLoc(st, loc, v.T)
@@ -884,6 +1018,7 @@ func (ex *Exec) doMakeSlice(fr *Frame, st *State, x *ssa.MakeSlice) {
 	ex.check(fr, st, "makelen", "", x.Pos(), and(le("0", n), le(n, c)))
 	r := ex.newRef(st, fnShort(fr.fn)+"_"+x.Name())
 	u := x.Type().Underlying().(*types.Slice)
+	st.assume(eq("(rtype "+r+")", fmt.Sprint(ex.w.typeID("[]"+ex.w.sortOf(u.Elem())))))
 	h := ex.w.elemHeap(u.Elem())
 	es := ex.w.sortOf(u.Elem())
 	ex.setHeap(st, h, sto(ex.heapTerm(st, h), r, "((as const (Array Int "+es+")) "+ex.w.zeroOf(u.Elem())+")"))
@@ -1093,6 +1228,7 @@ func (ex *Exec) doNext(fr *Frame, st *State, x *ssa.Next) {
 func (ex *Exec) doMakeClosure(fr *Frame, st *State, x *ssa.MakeClosure) {
 	fn := x.Fn.(*ssa.Function)
 	id := ex.newRef(st, "clo_"+fnShort(fn))
+	st.assume(eq("(rtype "+id+")", fmt.Sprint(ex.w.typeID("func"))))
 	st.assume(eq("(cloFn "+id+")", ex.w.funcConst(fn)))
 	var binds []SVal
 	for i, b := range x.Bindings {
